@@ -135,3 +135,34 @@ PROPS["C03"] = dict(
     ],
     min_class_fraction={"prefix_op_is_highest_binary": 0.02, "table_with_text_aliases": 0.05, "mutant_rejected_by_grammar": 0.2, "mutant_still_well_formed": 0.02},
 )
+
+
+PROPS["C15"] = dict(
+    pkg="c15",
+    rule=("layout: token lists of valid value-language programs (C01 generator) x one generated separator per gap: nothing (only where no "
+          "lexer could merge the neighbours), blank, tab, CR, LF, CRLF, // and /* */ comments (tight against both neighbours or set off by "
+          "blanks; containing quotes, stars, slashes, keywords, alias characters and - in block comments - line breaks; two comments in a "
+          "row; comment at end of input) x comments enabled/disabled. Oracle (metamorphic): structural AST dump of the variant == dump of "
+          "the single-blank layout; every Ident/Const node reports the line on which its token starts according to the layout engine (the "
+          "token a node refers to is learnt from a one-token-per-line layout); a stray ')' appended on a known line is rejected with that "
+          "line in the message. strings: random valid-UTF-8 strings without NUL, weighted to backslash, quotes, line breaks, tabs, control "
+          "characters, the alias characters, superscripts, // and /*: the literal with the escapes \\\\ \\\" \\n \\r \\t evaluates to exactly "
+          "the string; {'k':1} has exactly the key k. aliases: programs with typographic spellings (incl. superscript digits for ^n) parse "
+          "to the AST of the ASCII spelling. juxtaposition: comfort-mode parser and example.minimal: every omitted '*' between "
+          "number/identifier/')' and number/identifier/'(' (with and without a blank where the lexer allows) equals the explicit form. "
+          "Non-trivial: a gap with a comment, without separator or with a line break; a string with an escape/alias/control character; "
+          ">=1 alias spelling; >=1 omitted '*'. distinct = source text."),
+    assumptions=["the canonical single-blank layout is the meaning of a token list (its agreement with the reference parser is checked by C03)",
+                 "a line break is '\\n' (CR alone is white space)"],
+    jobs=[
+        dict(name="layout", run="^TestPropLayout$", kind="rapid", shards=16, checks={"quick": 100000, "thorough": 3000000},
+             guard={"quick": 900, "thorough": 7200}),
+        dict(name="strings", run="^TestPropStrings$", kind="rapid", shards=8, checks={"quick": 80000, "thorough": 3000000},
+             guard={"quick": 900, "thorough": 7200}),
+        dict(name="aliases", run="^TestPropAliases$", kind="rapid", shards=8, checks={"quick": 40000, "thorough": 1000000},
+             guard={"quick": 900, "thorough": 7200}),
+        dict(name="juxtaposition", run="^TestPropJuxtaposition$", kind="rapid", shards=8, checks={"quick": 80000, "thorough": 2000000},
+             guard={"quick": 900, "thorough": 7200}),
+    ],
+    min_class_fraction={"gap_with_comment": 0.1, "comment_tight_on_both_sides": 0.03, "two_comments_in_a_gap": 0.02},
+)
